@@ -652,3 +652,33 @@ func init() {
 		c.Check(okShape && okOther, fk+" :: any later height is replayed from the marker of the height before", w.ipos(at), H+" - 1 otherwise", "the marker looked for is "+w.expr(marker))
 	})
 }
+
+// ------------------------------------------------------------------ C15.R10
+// While replaying the unfinished height every corruption error must come back to the caller (OnStart then
+// backs the file up, repairs it and replays again). A replay that swallows a corruption error — e.g. taking
+// a damaged record with nothing behind it for a harmless torn tail — leaves the torn bytes in place: the next
+// incarnation appends synced records behind them, and they are unreadable.
+func init() {
+	register("C15", "R10", "K1", "replay of the unfinished height hands every corruption error back (so that the log is repaired before anything is appended)", 2, func(c *Ctx) {
+		w := c.W
+		f := c.fn("consensus", "State.catchupReplay")
+		if f == nil {
+			return
+		}
+		fk := funcKey(f)
+		n := 0
+		for _, ea := range condEdgesDeep(f) {
+			if ea.A.Kind != "true" || !strings.Contains(w.atomStr(ea.A), "IsDataCorruptionError(") {
+				continue
+			}
+			// only the decode loop of the replay itself (the searches ignore old corruption on request)
+			if !strings.Contains(w.atomStr(ea.A), ".Decode()#1") {
+				continue
+			}
+			n++
+			succ := ea.E.From.Succs[ea.E.Succ]
+			c.Check(edgeOnlyFailsDeep(w, f, succ), fk+" :: a corrupted record in the replayed height fails the replay", w.ipos(ea.E.From.Instrs[len(ea.E.From.Instrs)-1]), "the corruption edge only leads to error returns", "replay can end normally although a record of the unfinished height was corrupted: the log is not repaired and later records are appended behind the damage")
+		}
+		c.Check(n >= 1, fk+" :: corruption test in the replay loop found", w.pos(f.Pos()), ">= 1", fmt.Sprintf("%d", n))
+	})
+}
